@@ -7,6 +7,7 @@ import (
 	"encoding/json"
 	"fmt"
 	"math/big"
+	"os"
 	"strings"
 
 	"verif/mc/engine"
@@ -80,6 +81,9 @@ func (c *modelCheck) Prepare(tier string, seed int64) error {
 	c.build()
 	c.cases = nil
 	for fi, f := range c.families {
+		if only := os.Getenv("VERIF_ONLY_FAMILY"); only != "" && !strings.Contains(f.Name, only) { // development aid
+			continue
+		}
 		ss := c.slots[fi]
 		coreP := func(s, ch int) bool { return f.Core == nil || f.Core(ss, ss.slots[s], ch) }
 		var sets [][]dev
